@@ -282,6 +282,15 @@ Section EnvP.
     unfold env_mask. cbn. intros H. injection H. intros. subst. repeat split.
   Qed.
 
+  Lemma empty_deploy_is_a_call from data : d_len data = 0 ->
+    ti_to (deploy_ti INVALID from data) = KCall INVALID /\
+    ti_to (ethcall_ti INVALID (Some from) None data) = KCreate /\
+    (forall data', d_len data' <> 0 -> deploy_ti INVALID from data' = ethcall_ti INVALID (Some from) None data').
+  Proof.
+    intros H. unfold deploy_ti, ethcall_ti. cbn. rewrite H. repeat split.
+    intros d' H'. destruct (N.eqb_spec (d_len d') 0); [contradiction|reflexivity].
+  Qed.
+
   (* ---------------------------------------------------------------- C17: sim_predicts_tx *)
   Section Oracle.
     Context {View Out : Type}.
